@@ -75,6 +75,11 @@ CLAIMED = {
          "Writer direction: every file the real par1.Create writes for seeded sets is tokenized by an observer written from the PAR 1.0 specification and TLC (Par1Format.tla over GF(2^8)/0x11D) decides header fields, offsets and sizes, control hash, set hash, UTF-16LE entries and the parity data. Reader direction: TLC enumerates 2,752 cases = index layouts (1-3 saved entries with 0-2 entries not saved at every position, with/without comment, names with surrogate pairs) x damaged subsets x surviving volumes and checks that capacity alone decides; each is written by the reference writer (whose output Par1Format judges first) and read by the real par1.Verify and par1.Repair, TLC requiring counts over saved entries only, exact restoration within capacity and the typed too-few error otherwise.",
          "Small files in the reader direction; reference writer validated by the format specification.",
          "DESIGN.md section 5 C10"),
+ "C20": ("model_checking",
+         "Cli.tla: admissible exit statuses as a function of request and ground truth; TLC enumerates all 668 (format, command spelling, archive state, cwd, path spelling, usage class) combinations and checks the table's sanity; each is run with the built par binary on a constructed directory and TLC judges status, post-state and crash flag",
+         "The exit-status contract is a TLA+ function (Cli!Admissible, Cli!PostOK) over what was asked and what is really on disk; TLC enumerates every combination of format, command spelling, archive state, invocation directory, path spelling and usage-error class (668 cases), checks that 0 is admissible only for full success and usage errors give exactly 3, and emits the cases; each is executed with the par binary built from the working tree (-tags verif) in a freshly constructed directory whose ground truth (repair needed / possible / index intact) is derived from the bytes by the harness, and TLC judges the exit status, the post-state (repair 0 => every file intact; create 0 => a set that verifies clean; verify/usage change nothing) and the crash flag.",
+         "Reading of 'another non-zero status' as not in {0,1,2,3}; one fixed data set per format.",
+         "DESIGN.md section 5 C20"),
 }
 
 NOT_YET = "check under construction in this round; not claimed until it runs green on the unchanged tree"
